@@ -38,6 +38,20 @@ Example C02_example_wf :
     [(HKnown H_Host, [104]); (HKnown H_ContentLength, [51]); (HCustom [120;45;97], [49]); (HCustom [120;45;97], [50])].
 Proof. vm_compute. repeat split. Qed.
 
+(* "Exactly": the parser succeeds with (r, rest) on b if and only if b is `render g ++ rest` and r is `denote g` for a
+   request g of the language `accepted` (HttpReqSpec), which contains every well-formed request and differs from
+   wf_greq only in allowing, after the colon, any text that trim_start removes (e.g. U+00A0) and in asking UTF-8
+   validity of the line rather than of its parts.  So nothing else is ever parsed as a request, and no request is
+   parsed as anything but its denotation. *)
+Theorem C02_parse_accepts_iff :
+  forall (ipp : bytes -> option bytes) (p : peer) (b : bytes) (r : request) (rest : bytes),
+    parse_request_flat ipp p b = Ok (r, rest) <->
+    exists g : greq, accepted g /\ b = render g ++ rest /\ r = denote ipp g p.
+Proof. exact parse_accepts_iff. Qed.
+
+Theorem C02_wf_accepted : forall g : greq, wf_greq g = true -> accepted g.
+Proof. exact wf_greq_accepted. Qed.
+
 (* The body condition of wf_greq is met in particular by the canonical spelling of the length (what usize's Display
    writes): `Content-Length: <dec_render |body|>` as the first Content-Length field. *)
 Theorem C02_content_length_canonical :
@@ -217,3 +231,5 @@ Print Assumptions C02_address_padding.
 Print Assumptions C02_example_address.
 Print Assumptions C02_content_length_canonical.
 Print Assumptions C02_example_end_to_end.
+Print Assumptions C02_parse_accepts_iff.
+Print Assumptions C02_wf_accepted.
